@@ -26,12 +26,13 @@ def main() -> int:
                         choices=["quick", "thorough"])
     parser.add_argument("--replay")
     parser.add_argument("--digests")
+    parser.add_argument("--child")
     parser.add_argument("--runs", type=int)
     parser.add_argument("--wall-cap", type=float)
     args = parser.parse_args()
 
     # Re-exec once with a fixed hash seed so that a run is a function of VERIF_SEED alone.
-    if os.environ.get("PYTHONHASHSEED") is None:
+    if os.environ.get("PYTHONHASHSEED") is None and not args.child:
         env = dict(os.environ)
         env["PYTHONHASHSEED"] = "0"
         # page faults / mmap churn and thread creation scale very badly across processes in
@@ -45,6 +46,9 @@ def main() -> int:
     from dsim import driver, kernel
 
     try:
+        if args.child:
+            eng = driver._load_engine(args.engine)
+            return eng.child_main(args.child)
         if args.replay:
             return driver.replay_file(args.engine, args.replay)
         if args.digests:
